@@ -11,7 +11,7 @@ from vlib.core import Case
 
 PROP = "C20"
 SPEC_MODE = "oracle"
-KEEP_PREFIX = 1
+KEEP_PREFIX = 1   # the first line (a `recovery` or the first load); a shrink that loses the load is ill-formed (bad-op)
 SIZES = {"quick": 4000, "thorough": 100000}
 BATCH = 2000
 SHRINK_BUDGET = 200
@@ -152,6 +152,22 @@ def random_rule(rng, name, nn):
              rng.choice([0, 0, 1]))
 
 
+def recovery_ops(rng, ru):
+    """the rule's recovery fields (only the retryer's timers read them): MaxRecoveryAttempts over {0, 1, 2, large} with active
+    recovery on and off; RecoveryIntervalMs 0 (zero value) only for rules that stay passive, because with active recovery the
+    retryer would then re-check in a real-time hot loop.  Sets ru.no_fail (no failing `check` ops: with MaxRecoveryAttempts = 0 a
+    failed check re-arms time.AfterFunc(0) forever) and ru.stay_passive."""
+    ru.no_fail, ru.stay_passive = False, False
+    if rng.random() < 0.5:
+        return []
+    ma = rng.choice([0, 0, 1, 2, 4000000000])
+    ims = 4000
+    if ru.active == 0 and rng.random() < 0.3:
+        ims, ru.stay_passive = 0, True
+    ru.no_fail = ma == 0
+    return [f"recovery {ru.name} {ma} {ims}"]
+
+
 def gen_recycle_scenario(rng, cid):
     """eject + schedule some nodes, then (often) reload the rule — identical / percent or recovery fields only / one breaker
     field changed (rebuilds every breaker Closed) — let scheduled nodes complete successfully (or not), fire their recycle
@@ -161,7 +177,7 @@ def gen_recycle_scenario(rng, cid):
     thr = 1.0 if strat == 2 else 0.5
     ru = R("r", strat, rng.choice([50, 1000, 60000]), rng.choice([0, 1]), rng.choice([1000, 10000]), rng.choice([0, 1, 2]),
            5, thr, rng.choice([1, 1, 2, 0]), rng.choice([0.5, 1.0, 1.0, pick_percent(rng, nn)]), rng.choice([0, 0, 1]))
-    ops = [ru.load(rng)]
+    ops = recovery_ops(rng, ru) + [ru.load(rng)]
     now = T0
     addrs = make_addrs(rng, nn)
     dead = [a for a in addrs if rng.random() < 0.7] or [addrs[0]]
@@ -176,7 +192,7 @@ def gen_recycle_scenario(rng, cid):
         ru.change_cb(rng)
     elif kind == "pe":
         ru.pe = pick_percent(rng, nn)
-    elif kind == "active":
+    elif kind == "active" and not ru.stay_passive:
         ru.active = 1 - ru.active
     elif kind == "drop":
         # the rule is dropped (bulk set without it / per-resource clear / invalid bulk rule) and loaded again: nodes forgotten
@@ -207,7 +223,7 @@ def gen_recycle_scenario(rng, cid):
     if ru.active and not (ru.strat == 0 and ru.maxrt == 0):
         for a in dead:
             if rng.random() < 0.6:
-                ops.append(f"check r {a} {rng.choice(['fail', 'fail', 'ok'])}")
+                ops.append(f"check r {a} {'ok' if ru.no_fail else rng.choice(['fail', 'fail', 'ok'])}")
     if rng.random() < 0.3:
         ops.append("probe r")
     for a in rng.sample(addrs, len(addrs)):
@@ -234,7 +250,7 @@ def gen_case(rng, cid, known_region=False):
                 if int(nn * p) > math.floor(nn * Fraction(p)):      # binary64 product rounds up past the exact floor
                     cands.append(p)
         ru.pe = rng.choice(cands) if cands else 1 / 3
-    ops = [ru.load(rng)]
+    ops = recovery_ops(rng, ru) + [ru.load(rng)]
     # sometimes a second resource with its own rule over the same addresses (per-resource isolation)
     rules = {"r": ru}
     if not known_region and rng.random() < 0.12:
@@ -286,7 +302,7 @@ def gen_case(rng, cid, known_region=False):
         elif r < 0.93 and sn and cur.active:
             # the retryer's timer callback: scripted check result (connectNode), or onConnected with a given rt
             if rng.random() < 0.6 and not (cur.strat == 0 and cur.maxrt == 0):
-                ops.append(f"check {res} {rng.choice(sn)} {rng.choice(['ok', 'fail', 'fail'])}")
+                ops.append(f"check {res} {rng.choice(sn)} {'ok' if getattr(cur, 'no_fail', False) else rng.choice(['ok', 'fail', 'fail'])}")
             else:
                 ops.append(f"retry {res} {rng.choice(sn)} {rng.choice([0, 1, cur.maxrt + 1])}")
         elif r < 0.99 and not known_region:
@@ -306,7 +322,8 @@ def gen_case(rng, cid, known_region=False):
             elif k < 0.30:
                 pass                                    # identical
             elif k < 0.50:
-                cur.active = 1 - cur.active
+                if not getattr(cur, "stay_passive", False):
+                    cur.active = 1 - cur.active
             elif k < 0.68:
                 cur.pe = rng.choice([pick_percent(rng, nn), 0.0, 0.25, 1.0])
             else:
